@@ -1354,6 +1354,8 @@ def _public_callables(o):
 
 
 DUNDERS = ["__len__", "__str__", "__repr__", "__hash__", "__eq__", "__iter__", "__bool__", "__lt__", "__getitem__", "pickle"]
+REPARENT_THEN = ["get_spliced_sequence", "get_reference_sequence", "get_genomic_sequence", "get_transcript_sequence",
+                 "get_cds_sequence", "get_protein_sequence", "has_sequence", "chunk_relative_location", "to_dict"]
 CDS_THEN = ["extract_sequence", "has_valid_stop", "num_codons", "translate", "has_in_frame_stop"]
 IO_OPS = ["io:gff3", "io:genbank", "io:tbl", "io:tbl_prok"]
 
@@ -1454,6 +1456,9 @@ def method_points(o):
         out += [("then:chunk_relative_codon_locations:" + m, "-") for m in CDS_THEN]
     if isinstance(o, AnnotationCollection):
         out += [(m, "-") for m in IO_OPS]
+    if type(o) in (TranscriptInterval, FeatureInterval) and getattr(o, "_parent_or_seq_chunk_parent", None) is not None:
+        # re-parenting history: questioned, then made a member of an aggregate on a sequence-less parent, then asked
+        out += [("reparent:" + m, "-") for m in REPARENT_THEN if hasattr(type(o), m)]
     return out
 
 
@@ -1511,6 +1516,25 @@ def _call(o, method, argid):
             if r.startswith(("err!", "ok illformed")):
                 return _Verbatim(r)
         return None
+    if method.startswith("reparent:"):
+        # the object is asked every argument-less question (per-object memos and flags are warm), then handed as the only
+        # member to an aggregate whose parent is the same chromosome WITHOUT sequence (aggregates re-parent their members
+        # in place), then asked: the answer is that of an object on a sequence-less parent - a value or a documented
+        # refusal (NullSequenceException), never an internal error
+        from harness import warm as _warm
+        m = method.split(":", 1)[1]
+        _warm.ask_everything(o, _top=False, skip=(m,))      # (the member itself is memoised: it is asked only afterwards)
+        old_parent = o._parent_or_seq_chunk_parent
+        try:
+            cid = old_parent.first_ancestor_of_type(SequenceType.CHROMOSOME).id
+        except Exception:  # noqa
+            cid = old_parent.id
+        bare = Parent(id=cid, sequence_type=SequenceType.CHROMOSOME)
+        if isinstance(o, TranscriptInterval):
+            GeneInterval([o], parent_or_seq_chunk_parent=bare)
+        else:
+            FeatureIntervalCollection([o], parent_or_seq_chunk_parent=bare)
+        return _get_or_call(o, m)
     if method.startswith("then:"):
         _, first, second = method.split(":")
         x = _get_or_call(o, first)
@@ -1661,7 +1685,7 @@ def call_object(cls_name, base_id):
 
 def must_refuse(o, method, argid):
     """argument tuples that the documentation of the Location classes says are refused: answering them is a violation"""
-    if not isinstance(o, (SingleInterval, CompoundInterval)) or "=" not in argid or method.startswith(("sym:", "then:")):
+    if not isinstance(o, (SingleInterval, CompoundInterval)) or "=" not in argid or method.startswith(("sym:", "then:", "reparent:")):
         return False
     kw = dict(kv.split("=", 1) for kv in argid.split(","))
     n = len(o)
@@ -1685,7 +1709,7 @@ def must_refuse(o, method, argid):
 
 def must_answer(o, method, argid):
     """argument tuples inside the documented domain: refusing them is a violation (regressions F-C19a / F-C19b)"""
-    if isinstance(o, (SingleInterval, CompoundInterval)) and "=" in argid and not method.startswith(("sym:", "then:")):
+    if isinstance(o, (SingleInterval, CompoundInterval)) and "=" in argid and not method.startswith(("sym:", "then:", "reparent:")):
         if o.strand not in (Strand.PLUS, Strand.MINUS) or len(o) == 0:
             return False
         kw = dict(kv.split("=", 1) for kv in argid.split(","))
